@@ -32,6 +32,19 @@ def corrupt(rng, p, frac, family):
         for i in idx:
             out[i] = tg.fields(p["rec"][i] + off)      # the whole tail runs late by the same amount: times stay increasing
         return out, idx
+    if family == "year-only" and k > 0:
+        # every corrupt line carries another PLAUSIBLE year (day and millisecond intact): nothing a per-field check can reject
+        idx = sorted(rng.sample(range(1, n), k))
+        out = [None] * n
+        for i in idx:
+            y, d, ms = tg.fields(p["rec"][i])
+            out[i] = (rng.choice([y - 1, y - 2, 1985, y - 1]), d, ms)
+        return out, idx
+    if family == "last-day" and n > 3:
+        y, d, ms = tg.fields(p["rec"][n - 1])
+        out = [None] * n
+        out[n - 1] = (y, min(d + rng.choice([1, 30, 150]), 365), ms)
+        return out, [n - 1]
     if family == "block-offset" and k > 0:
         # a contiguous block right after the first line runs on a wrong clock (one common offset, within the header window)
         idx = list(range(1, 1 + k))
@@ -76,6 +89,7 @@ def corrupt(rng, p, frac, family):
 
 
 def run(res, tier, seed):
+    l1b.AUTO_NOISE = 7919 * seed + 13      # random bytes in every record field the spec writer does not set
     rng = common.rng_for(seed, PROP)
     plans = []
     sizes = [12, 40, 200, 900] if tier == "quick" else [12, 40, 200, 900, 3000]
@@ -90,6 +104,8 @@ def run(res, tier, seed):
             plans.append((fmt, n, rng.choice([0.1, 0.25, 0.39]), "tail-forward", "plain"))
             plans.append((fmt, n, 0.3, "dayplus", "midnight"))
             plans.append((fmt, n, rng.choice([0.2, 0.3, 0.39]), "block-offset", "plain"))
+            plans.append((fmt, n, rng.choice([0.05, 0.2]), "year-only", "plain"))
+            plans.append((fmt, n, 0.01, "last-day", "plain"))
         if l1b.FMT[fmt]["res"] == "gac":   # a long pass: the offset estimate must survive a wrong block of more than 500 lines
             plans.append((fmt, 2600, rng.choice([0.25, 0.3, 0.38]), "block-offset", "plain"))
     coq = []
